@@ -13,7 +13,7 @@ import MM.Model.C18
     frame <id> <fin> <hex> <n|h>  HandleStreamData; `h`: at the verifhook point between queuing the
                                   payload and signalling FIN a parked reader that is ready is run
                                   to completion (its answer is `mid=`)
-    rclose <id> / rreset <id>     HandleStreamClose / HandleStreamReset
+    rclose <id> / rreset <id>     HandleStreamClose / HandleStreamReset;  lremove <id>  RemoveStream
     read <id>                     make sure a reader is parked in Read, collect its answer if ready
     closewrite <id> / close <id>  Stream.CloseWrite / Stream.Close
   answer:  <res> mid=<r> end=<r> | <dump of every stream>      r ::= - | parked | data:<hex> | eof
@@ -140,6 +140,10 @@ def step (m : Mgr String) (line : String) : Mgr String × String :=
     | some (f, hook) => frameOp m i.toNat! f hook
     | none => (m, "bad-op")
   | ["rclose", i] =>
+    match m.get i.toNat! with
+    | some x => if x.reg then frameOp m i.toNat! .close false else simpleOp m i.toNat! []
+    | none => out m "ok" "-" "-"
+  | ["lremove", i] =>
     match m.get i.toNat! with
     | some x => if x.reg then frameOp m i.toNat! .close false else simpleOp m i.toNat! []
     | none => out m "ok" "-" "-"
